@@ -106,6 +106,7 @@ func (x *Exec) Stop() {
 type gstate struct {
 	id    int
 	state string
+	top   string // first function of the stack that is not in package runtime
 }
 
 var waiting = map[string]bool{
@@ -128,14 +129,25 @@ func snapshot() []gstate {
 		buf = make([]byte, 2*len(buf))
 	}
 	var out []gstate
+	cur := -1
 	for _, line := range bytes.Split(buf, []byte("\n")) {
 		if !bytes.HasPrefix(line, []byte("goroutine ")) {
+			if cur >= 0 && out[cur].top == "" && len(line) > 0 && line[0] != '\t' && line[0] != ' ' {
+				fn := string(line)
+				if !strings.HasPrefix(fn, "runtime.") {
+					if i := strings.LastIndexByte(fn, '('); i > 0 {
+						fn = fn[:i]
+					}
+					out[cur].top = fn
+				}
+			}
 			continue
 		}
 		s := string(line)
 		l := strings.IndexByte(s, '[')
 		r := strings.LastIndexByte(s, ']')
 		if l < 0 || r < l {
+			cur = -1
 			continue
 		}
 		id, _ := strconv.Atoi(strings.TrimSpace(s[len("goroutine "):l]))
@@ -143,7 +155,8 @@ func snapshot() []gstate {
 		if c := strings.IndexByte(st, ','); c >= 0 {
 			st = st[:c]
 		}
-		out = append(out, gstate{id, st})
+		out = append(out, gstate{id: id, state: st})
+		cur = len(out) - 1
 	}
 	sort.Slice(out, func(i, j int) bool { return out[i].id < out[j].id })
 	return out
@@ -156,9 +169,19 @@ func (x *Exec) Settle() error {
 	deadline := time.Now().Add(x.Budget)
 	var prev string
 	stable := 0
+	var firstStable time.Time
 	var lastBusy string
+	pending := map[int]*Worker{} // goroutine id -> worker with an issued call whose reply is not in yet
 	for i := 0; ; i++ {
 		runtime.Gosched()
+		for k := range pending {
+			delete(pending, k)
+		}
+		for _, w := range x.W {
+			if w.busy && len(w.res) == 0 {
+				pending[w.gid] = w
+			}
+		}
 		snap := snapshot()
 		quiet := true
 		var sb strings.Builder
@@ -171,12 +194,32 @@ func (x *Exec) Settle() error {
 				quiet = false
 				lastBusy = fmt.Sprintf("goroutine %d [%s]", g.id, g.state)
 			}
+			// a worker whose call has produced no reply must be parked *inside* the call; parked in
+			// its own command loop it has either not picked the command up or not delivered the reply
+			if _, ok := pending[g.id]; ok && strings.HasSuffix(g.top, "qx.(*Exec).Add.func1") {
+				quiet = false
+				lastBusy = fmt.Sprintf("worker goroutine %d idle in its loop with a call outstanding", g.id)
+			}
 		}
 		cur := sb.String()
 		if quiet && cur == prev {
+			if stable == 0 {
+				firstStable = time.Now()
+			}
 			stable++
-			if stable >= 2 {
-				return nil
+			// three identical all-parked snapshots, the first and the last at least 300us apart
+			if stable >= 2 && time.Since(firstStable) >= 300*time.Microsecond {
+				// a reply may have arrived between the bookkeeping and the snapshot: re-check
+				ok := true
+				for _, w := range pending {
+					if len(w.res) != 0 {
+						ok = false
+					}
+				}
+				if ok {
+					return nil
+				}
+				stable = 0
 			}
 		} else {
 			stable = 0
@@ -185,8 +228,12 @@ func (x *Exec) Settle() error {
 		if time.Now().After(deadline) {
 			return fmt.Errorf("no quiescence within %v: %s", x.Budget, lastBusy)
 		}
-		if i > 3 {
-			time.Sleep(time.Duration(20*(i-3)) * time.Microsecond)
+		if i > 1 {
+			d := 20 * (i - 1)
+			if d > 400 {
+				d = 400
+			}
+			time.Sleep(time.Duration(d) * time.Microsecond)
 		}
 	}
 }
